@@ -26,11 +26,13 @@ def run(tier, chk):
     if tier != "quick":
         # the scenario families of the other checks, judged by the same wire rules
         corpus.cross(chk, "C14", "C14_Trace", sig_of=lambda s, t, w: f"c14:corpus:{s.get('family')}:" + sig(s, t, w), exclude=("C14",))
+    # binding A: the byte image of DATA frames whose payload buffer is not contiguous (two pieces), drained in several step sizes
+    nv = common.run_vectors(chk, wd, "C14W_Gen", workers=2, label="wbuf", sig_of=lambda v, got: "wbuf:panic" if isinstance(got, dict) and "panic" in got else "wbuf:data-frame-image")
     chk.exhaustive = True
-    chk.distinct_nontrivial = len(scns) + len(pair)
+    chk.distinct_nontrivial = len(scns) + len(pair) + nv
     chk.rule = (f"API programs of up to {m} calls after the head (send_data 0/1/5/70 bytes, send_trailers, finish, drop) x shutdown(n in 0,1,15,4095: GOAWAY identifiers at varint form boundaries) x second request x 5 configurations "
                 "(grease, 1- and 3-byte writes, uni-stream credit withheld then granted) for both roles against a scripted peer, plus the C01 client<->server catalogue; every stream's "
-                "byte log judged by WireOut at quiescence")
+                "byte log judged by WireOut at quiescence; plus the WriteBuf image of DATA frames with a two-piece (non-contiguous) payload buffer, 4 x 5 piece lengths x 6 drain patterns")
     chk.assumptions = ["cancellation of a call in mid-write is outside the property's quantifier and not generated"]
 
 
